@@ -146,7 +146,7 @@ def model_text(reply):
 
 
 # ----------------------------------------------------------------------------- numeric oracle
-MAX_CONFIGS = 1  # frozen-phonon ensembles of several configurations are C02's subject
+MAX_CONFIGS = 3
 
 
 def gen_numeric(ctx: Ctx, frozen=False, single=False):
@@ -321,6 +321,19 @@ class C07(Property):
             atoms = abtem.FrozenPhonons(atoms, c["nfp"], 0.1, seed=c["seed"], ensemble_mean=False)
         pot = _potential(c, c["spec"], atoms)
         planes = [int(p) for p in pot.exit_planes]
+        nsl = int(pot.num_slices)
+        if isinstance(c["spec"], int):
+            # documented meaning of an integer: the entrance plane, then a measurement every `k` slices, and the last slice
+            k = c["spec"]
+            exp_planes = [nsl - 1] if k >= nsl else \
+                [-1] + [i for i in range(nsl) if (i + 1) % k == 0] + ([nsl - 1] if nsl % k else [])
+            if planes != exp_planes:
+                ctx.violation("integer-exit-planes-not-every-k-slices", c, {"exit_planes": planes, "expected": exp_planes,
+                                                                           "k": k, "num_slices": nsl})
+                return
+        elif c["spec"] is None and planes != [nsl - 1]:
+            ctx.violation("default-exit-plane-not-last-slice", c, {"exit_planes": planes, "num_slices": nsl})
+            return
         try:
             res = _run(c, pot, lazy=c["lazy"])
         except Exception as e:  # noqa
